@@ -664,6 +664,9 @@ class EvaluationProblem(BaseProblem):
             isinstance(function, MDOLinearFunction)
             and not round_ints
             and is_function_input_normalized
+            # The unnormalization rounds the integer variables,
+            # which the normalized linear function would not do.
+            and not ds.has_integer_variables
         ):
             expects_normalized_inputs = True
             function = function.normalize(self.design_space)
